@@ -24,12 +24,14 @@ Definition mode_ok (k mode : N) : bool :=
   else if (k =? 4) || (k =? 5) then (mode =? 3) || (mode =? 4)
   else if k =? 6 then mode =? 6
   else if (k =? 7) || (k =? 9) then mode =? 8
-  else if k =? 8 then (mode =? 7) || (mode =? 8)
+  else if (k =? 8) || (k =? 13) then (mode =? 7) || (mode =? 8)
+  else if (k =? 10) || (k =? 11) then mode =? 8
+  else if k =? 12 then mode =? 1
   else false.
 (* the mode CanonicalOrd must use: the octet order of the canonical encoding *)
 Definition canonical_mode (k : N) : N :=
   if (k =? 1) || (k =? 2) || (k =? 3) then 1 else if k =? 4 then 4 else if k =? 5 then 5
-  else if (k =? 6) || (k =? 8) then 7 else 8.
+  else if (k =? 6) || (k =? 8) || (k =? 13) then 7 else if k =? 12 then 1 else 8.
 
 Fixpoint steps_eqb (a b : list (N * N)) : bool :=
   match a, b with
@@ -86,18 +88,23 @@ Qed.
 
 Lemma mode_ok_cases k mode : mode_ok k mode = true ->
   ((k = 1 \/ k = 2 \/ k = 3) /\ mode = 1) \/ ((k = 4 \/ k = 5) /\ (mode = 3 \/ mode = 4)) \/
-  (k = 6 /\ mode = 6) \/ ((k = 7 \/ k = 9) /\ mode = 8) \/ (k = 8 /\ (mode = 7 \/ mode = 8)).
+  (k = 6 /\ mode = 6) \/ ((k = 7 \/ k = 9) /\ mode = 8) \/ ((k = 8 \/ k = 13) /\ (mode = 7 \/ mode = 8)) \/
+  ((k = 10 \/ k = 11) /\ mode = 8) \/ (k = 12 /\ mode = 1).
 Proof.
   unfold mode_ok.
-  destruct (N.eqb_spec k 1); [intros H; apply N.eqb_eq in H; auto 10|].
-  destruct (N.eqb_spec k 2); [intros H; apply N.eqb_eq in H; auto 10|].
-  destruct (N.eqb_spec k 3); [intros H; apply N.eqb_eq in H; auto 10|]. cbn [orb].
-  destruct (N.eqb_spec k 4); [intros H; apply orb_true_iff in H as [H|H]; apply N.eqb_eq in H; auto 10|].
-  destruct (N.eqb_spec k 5); [intros H; apply orb_true_iff in H as [H|H]; apply N.eqb_eq in H; auto 10|]. cbn [orb].
-  destruct (N.eqb_spec k 6); [intros H; apply N.eqb_eq in H; auto 10|].
-  destruct (N.eqb_spec k 7); [intros H; apply N.eqb_eq in H; auto 10|].
-  destruct (N.eqb_spec k 9); [intros H; apply N.eqb_eq in H; auto 10|]. cbn [orb].
-  destruct (N.eqb_spec k 8); [intros H; apply orb_true_iff in H as [H|H]; apply N.eqb_eq in H; auto 10|].
+  destruct (N.eqb_spec k 1); [intros H; apply N.eqb_eq in H; auto 12|].
+  destruct (N.eqb_spec k 2); [intros H; apply N.eqb_eq in H; auto 12|].
+  destruct (N.eqb_spec k 3); [intros H; apply N.eqb_eq in H; auto 12|]. cbn [orb].
+  destruct (N.eqb_spec k 4); [intros H; apply orb_true_iff in H as [H|H]; apply N.eqb_eq in H; auto 12|].
+  destruct (N.eqb_spec k 5); [intros H; apply orb_true_iff in H as [H|H]; apply N.eqb_eq in H; auto 12|]. cbn [orb].
+  destruct (N.eqb_spec k 6); [intros H; apply N.eqb_eq in H; auto 12|].
+  destruct (N.eqb_spec k 7); [intros H; apply N.eqb_eq in H; auto 12|].
+  destruct (N.eqb_spec k 9); [intros H; apply N.eqb_eq in H; auto 12|]. cbn [orb].
+  destruct (N.eqb_spec k 8); [intros H; apply orb_true_iff in H as [H|H]; apply N.eqb_eq in H; auto 12|].
+  destruct (N.eqb_spec k 13); [intros H; apply orb_true_iff in H as [H|H]; apply N.eqb_eq in H; auto 12|]. cbn [orb].
+  destruct (N.eqb_spec k 10); [intros H; apply N.eqb_eq in H; auto 12|].
+  destruct (N.eqb_spec k 11); [intros H; apply N.eqb_eq in H; auto 12|]. cbn [orb].
+  destruct (N.eqb_spec k 12); [intros H; apply N.eqb_eq in H; auto 12|].
   discriminate.
 Qed.
 
@@ -214,6 +221,45 @@ Proof.
     rewrite <- Ka at 1. rewrite map_length, pick_iota.
     rewrite <- Kb. rewrite map_length, pick_iota. exact He.
 Qed.
+
+(* ---- Record<Name, Data> and RecordHeader: PartialOrd is Some (Ord) *)
+Lemma record_header_partial_fields_ok :
+  record_partial_fields = record_cmp_fields /\ header_partial_fields = header_cmp_fields /\
+  record_cmp_fields = record_eq_fields.
+Proof. repeat split; reflexivity. Qed.
+
+Theorem record_partial_is_cmp code oa ca a ob cb b :
+  c04_record_partial code oa ca a ob cb b = c04_record_cmp code oa ca a ob cb b.
+Proof.
+  unfold c04_record_partial, c04_record_cmp. rewrite rd_partial_is_cmp.
+  destruct record_header_partial_fields_ok as [-> _]. reflexivity.
+Qed.
+
+(* cmp of whole records is Equal exactly when they are == *)
+Theorem record_cmp_eq_iff code row oa ca a ob cb b : rd_lookup rd_table code = Some row ->
+  map fv_kind a = row_kinds row -> map fv_kind b = row_kinds row -> Forall fv_ok a -> Forall fv_ok b ->
+  exists c, c04_record_cmp code oa ca a ob cb b = Some c /\
+            (c = Eq <-> c04_record_eq code oa ca a ob cb b = true).
+Proof.
+  intros L Ka Kb Oa Ob. destruct (rd_cmp_eq_iff code row a b L Ka Kb Oa Ob) as [c [Hc [_ He]]].
+  unfold c04_record_cmp, c04_record_eq, c04_rd_eq. rewrite L, Hc.
+  unfold record_cmp_fields, record_eq_fields. cbn [rec_chain rec_cmp_step rec_eq_step forallb N.eqb Pos.eqb].
+  destruct (name_cmp oa ob) eqn:En.
+  - apply name_cmp_eq_iff in En. rewrite En. destruct (N.compare_spec ca cb) as [E|E|E].
+    + subst cb. rewrite N.eqb_refl. exists c. split; [destruct c; reflexivity|]. cbn [andb]. rewrite andb_true_r. destruct c; exact He.
+    + exists Lt. split; [reflexivity|]. assert ((ca =? cb) = false) by (apply N.eqb_neq; lia). rewrite H. cbn. split; discriminate.
+    + exists Gt. split; [reflexivity|]. assert ((ca =? cb) = false) by (apply N.eqb_neq; lia). rewrite H. cbn. split; discriminate.
+  - exists Lt. split; [reflexivity|]. assert (name_eqb oa ob = false).
+    { destruct (name_eqb oa ob) eqn:E; [|reflexivity]. apply name_cmp_eq_iff in E. congruence. }
+    rewrite H. cbn. split; discriminate.
+  - exists Gt. split; [reflexivity|]. assert (name_eqb oa ob = false).
+    { destruct (name_eqb oa ob) eqn:E; [|reflexivity]. apply name_cmp_eq_iff in E. congruence. }
+    rewrite H. cbn. split; discriminate.
+Qed.
+
+(* RecordHeader: partial_cmp walks the same fields with the same comparisons *)
+Theorem header_partial_is_cmp a b : hdr_chain header_partial_fields a b = m_header_cmp a b.
+Proof. unfold m_header_cmp. destruct record_header_partial_fields_ok as [_ [-> _]]. reflexivity. Qed.
 
 (* what the defect class looks like in the table: ZONEMD before the repair
    compared its serial in serial number arithmetic in partial_cmp only *)
